@@ -289,7 +289,11 @@ def c07_jobs(tier, repo):
     _EJ_TIER[0] = tier
     d = 12 if tier == "quick" else 30  # thorough: level by level up to the deadline
     jobs = [_ej("C07", d, 1, 1, 600, 1), _ej("C07", d, 3, 2, 600, 1), _ej("C07", d, 700, 1, 600, 1),
-            _ej("C07", d, 3, 2, 600, 0), _ej("C07", d, 3, 2, 8, 1), _ej("C07", d, 2, 1, 5, 0)]
+            _ej("C07", d, 3, 2, 600, 0), _ej("C07", d, 3, 2, 8, 1), _ej("C07", d, 2, 1, 5, 0),
+            # tables without another source's records and a first data set of one address family only: the purge
+            # and the stop then meet an EMPTY trie of the other family
+            _ej("C07", d - 2, 3, 2, 600, 1, ["--with-x=0", "--mask-rot=5"]),
+            _ej("C07", d - 2, 3, 2, 8, 1, ["--with-x=0", "--mask-rot=6"])]
     if tier == "thorough":
         jobs += [_ej("C07", d, 2, 3, 600, 1), _ej("C07", d, 5, 1, 600, 1), _ej("C07", d, 700, 1, 600, 0),
                  _ej("C07", d, 3, 2, 600, 1, ["--max-publish=3"]), _ej("C07", d, 3, 2, 600, 1, ["--max-stops=2"]),
@@ -354,7 +358,8 @@ SPECS["C07"] = CheckSpec(
          "first PDU of a connection, close during a reload)}, "
          "transport open {ok, fails, fails after more than the expire interval}, events while ESTABLISHED {refresh, "
          "stop/start, transport error}, stop requests during retry sleeps; interval settings (1,1,600) (3,2,600) "
-         "(700,1,600) and compressed-time (3,2,8) (2,1,5); the monitor keeps its own time of the last completed "
+         "(700,1,600) and compressed-time (3,2,8) (2,1,5), plus two settings without another source's records whose "
+         "cache starts with an IPv6-only / IPv4-only data set (one trie empty at purge and stop); the monitor keeps its own time of the last completed "
          "exchange and checks at every open() that expired data are gone and the first query is a Reset Query, that "
          "nothing of the socket remains after the real rtr_stop returned, that in both cases the socket's last_update "
          "(0 = holds no data, what the group manager reads) is cleared, and that another source's records are intact",
@@ -372,7 +377,8 @@ SPECS["C07"] = CheckSpec(
 SPECS["C08"] = CheckSpec(
     "C08", c08_jobs,
     rule="explicit-state BFS over fault conversations (22 answers incl. send failure, foreign session, response cut "
-         "by a timeout / by a transport error, duplicate / unknown withdrawal, malformed PDU, cache restart, "
+         "by a timeout / by a transport error, duplicate / unknown withdrawal (answering newly published data, "
+         "with that data's real serial in a well-formed End of Data), malformed PDU, cache restart, "
          "Unsupported-Version report and version-0 answer (version change), Error Reports with the codes corrupt "
          "data / invalid request / unsupported PDU type / unknown (each has its own branch in the client); open "
          "fails / fails slowly; Serial Notify, "
